@@ -193,7 +193,10 @@ func Close[T any](ch chan<- T) {
 		Point(addr(ch), OpChan, nil)
 	}
 	if x := cur.Load(); x != nil {
-		x.closed.Store(addr(ch), true)
+		// the value keeps the channel alive, so that its address cannot be reused by
+		// a later channel of the same execution (a stale entry would make that one
+		// look ready and add a spurious choice point)
+		x.closed.Store(addr(ch), ch)
 	}
 	close(ch)
 }
@@ -201,6 +204,6 @@ func Close[T any](ch chan<- T) {
 // NoteClosed lets the harness declare a channel it closed itself.
 func NoteClosed(ch any) {
 	if x := cur.Load(); x != nil {
-		x.closed.Store(addr(ch), true)
+		x.closed.Store(addr(ch), ch)
 	}
 }
